@@ -187,7 +187,7 @@ fn replay_inner(ir: &air::Ir, top: &str, stim: &J) -> Result<J, String> {
     let g = &gate.module;
 
     // (a) the repository's interpreter
-    let config = Config { use_jit: false, ..Default::default() };
+    let config = Config { use_jit: stim["jit"].as_bool().unwrap_or(false), ..Default::default() };
     let sim_ir = build_ir(ir, top_id, &config).map_err(|e| format!("simulator ir: {e}"))?;
     let mut sim = Simulator::new(sim_ir, None);
     let clk_ev = match clock {
